@@ -1,12 +1,13 @@
 """C20 configuration for ./check and mkmanifest"""
 CFG = {
-  'gens': ['gen_consts.py'],
+  'ready': True,
+  'gens': ['gen_consts.py', 'gen_chainsync.py'],
   'props_module': 'LdkModel.Props.C20',
   'models': ['c20'],
   'technique': 'Lean 4 model of SpvClient / ChainNotifier / HeaderCache / ChainPoller / synchronize_listeners over abstract block trees with a failure-scheduled source; theorems by induction over the walk fuel, the connected path and poll histories; differential run of the real lightning-block-sync against the compiled model on real-header regtest trees',
   'level_text': 'Lean 4 theorems over a hand-written executable model of lightning-block-sync (all block trees, all failure schedules, all consistent caches, all poll histories; induction, no bounds), plus a differential run of the real SpvClient::poll_best_tip / init::synchronize_listeners over random real-header regtest trees (valid PoW, real prev_blockhash links and chainwork, forks deeper than HEADER_CACHE_LIMIT in both tiers) against the compiled model: exact notification sequences, return values, returned cache contents and the number of requests the block source received',
-  'level_note': 'Trusted: Lean kernel; axioms {propext, Classical.choice, Quot.sound}; tools/gen_consts.py (HEADER_CACHE_LIMIT); the finite correspondence sample. The model is hand-written (Model/ChainSync.lean), tied to the Rust only by the differential run. PoW / merkle / witness-commitment validation is delegated to rust-bitcoin and appears in the model as "this request fails". HTTP/RPC/REST clients are outside.',
-  'modelled': 'Model/ChainSync.lean is a hand-written mirror of lib.rs (SpvClient, ChainNotifier, HeaderCache), poll.rs (ChainPoller::{poll_chain_tip, look_up_previous_header}, check_builds_on for Regtest) and init.rs (synchronize_listeners incl. BlockLocator fallback and fetch batches); check_builds_on chainwork equality is abstracted to a strict increase of cumulative work; MAX_BLOCKS_AT_ONCE = 36 is a literal in the model (checked by multi-batch start-up syncs with failures in the correspondence)',
+  'level_note': 'Trusted: Lean kernel; axioms {propext, Classical.choice, Quot.sound}; tools/gen_consts.py (HEADER_CACHE_LIMIT) and tools/gen_chainsync.py (MAX_BLOCKS_AT_ONCE, 15 textual shape anchors of the mirrored comparisons); the finite correspondence sample. The model is hand-written (Model/ChainSync.lean), tied to the Rust only by the differential run. PoW / merkle / witness-commitment validation is delegated to rust-bitcoin and appears in the model as "this request fails". HTTP/RPC/REST clients are outside.',
+  'modelled': 'Model/ChainSync.lean is a hand-written mirror of lib.rs (SpvClient, ChainNotifier, HeaderCache), poll.rs (ChainPoller::{poll_chain_tip, look_up_previous_header}, check_builds_on for Regtest) and init.rs (synchronize_listeners incl. BlockLocator fallback and fetch batches); check_builds_on chainwork equality is abstracted to a strict increase of cumulative work; MAX_BLOCKS_AT_ONCE and HEADER_CACHE_LIMIT are regenerated from the Rust text on every run; gen_chainsync.py additionally fails if one of 15 decisive comparisons the model mirrors is no longer present verbatim',
   'partial': 'tip_only_improves_partial needs a source that answers every request of the poll: an interrupted reorg leaves chain_tip and the listeners at the last delivered block of the better chain, possibly the fork point with less work than before (interrupted_reorg_example; the real code behaves the same; the harness counts these cases). listeners_converge is stated for a successful synchronize_listeners (on Err the real code documents that listeners may be left at different blocks).',
   'assumptions': ['block hashes are collision-free identifiers (hashes are keys of the tree: wfTree)',
                   'a header the poller accepts is the tree\'s header for that hash: PoW / hash validation by rust-bitcoin is assumed sound (a header that fails it is a failed request in the model)',
